@@ -10,7 +10,8 @@ RULE = ("statement sequences containing statements whose *need* (distinct prefix
         "exceeds an enabled table: max_prefixes 1..3 with 2..4 distinct prefixes in one statement, max_datatypes 1..3 with "
         "2..4 distinct datatypes (generalised positions, quoted triples), max_names 8..26 with nested quoted triples of "
         "9..27 distinct names, graph names included; the oversized statement is placed first, mid-stream and after "
-        "evictions; Triple/Quad/Graph streams; generic and (for prefixes) rdflib. Oracle: the serializer raises, or BOTH the "
+        "evictions; Triple/Quad/Graph streams, and the low-level encode_triple / encode_quad functions on a bare TermEncoder; generic "
+        "and (for prefixes) rdflib. Oracle: the serializer raises, or BOTH the "
         "independent decoder and pyjelly's parser decode the bytes to exactly the input. Non-trivial: every case whose "
         "oversized row really exceeds the table (overflow >= 1); distinct by (table, overflow, position, config, statements).")
 ASSUMPTIONS = ["need is computed by the harness from the split rule (last '#', else last '/')"]
@@ -119,13 +120,36 @@ def make_case(rng):
                                                                         else ["stream_frames_gen"]),
            "frame_size": rng.choice([1, 5, 250]), "preset": preset, "delimited": True, "logical": pj.FLAT_LOGICAL[phys],
            "generalized": True, "rdf_star": True, "ns": False, "stream_name": ""}
+    if integ == "generic" and phys != 3 and rng.random() < .2:
+        cfg["entry"] = "low-level-encode"
     overflow = need_t[table] - {"prefix": preset[1], "name": preset[0], "datatype": preset[2]}[table]
     return cfg, stmts, table, overflow, position
 
 
+def low_level_bytes(cfg, stmts) -> bytes:
+    """A custom writer built directly on the public encode_triple / encode_quad functions and a TermEncoder."""
+    from pyjelly import jelly
+    from pyjelly.integrations.generic.serialize import GenericSinkTermEncoder
+    from pyjelly.options import LookupPreset, StreamParameters, StreamTypes
+    from pyjelly.serialize.encode import encode_options, encode_quad, encode_triple
+
+    n, p, d = cfg["preset"]
+    preset = LookupPreset(max_names=n, max_prefixes=p, max_datatypes=d)
+    enc = GenericSinkTermEncoder(lookup_preset=preset)
+    phys = cfg["physical"]
+    rows = [encode_options(preset, StreamTypes(physical_type=phys, logical_type=pj.FLAT_LOGICAL[phys]),
+                           StreamParameters(generalized_statements=True, rdf_star=True))]
+    repeated = [None] * 4
+    for st in stmts:
+        native = T.stmt_to_generic(st)
+        rows.extend((encode_triple if phys == 1 else encode_quad)(native, enc, repeated))
+    frame = jelly.RdfStreamFrame(rows=rows).SerializeToString(deterministic=True)
+    return wire.enc_varint(len(frame)) + frame
+
+
 def judge(cfg, stmts):
     try:
-        data = pj.serialize(cfg, stmts)
+        data = low_level_bytes(cfg, stmts) if cfg["entry"] == "low-level-encode" else pj.serialize(cfg, stmts)
     except Exception as e:  # noqa: BLE001 - refusing is fine
         return None, f"raised:{type(e).__name__}"
     want = [T.norm_stmt(s) for s in stmts]
